@@ -20,6 +20,7 @@ from ural.utils import (
     decode_punycode_hostname,
     normpath,
     fix_common_query_mistakes,
+    lowercase as to_lowercase,
     SplitResult,
 )
 from ural.quote import (
@@ -275,7 +276,7 @@ def normalize_url(
             # NOTE: letters hidden in escapes (e.g. "/%43hannel/") only show
             # once unquoted
             if lowercase:
-                canonical_url = upper_quoted(canonical_url.lower())
+                canonical_url = upper_quoted(to_lowercase(canonical_url))
 
             if is_facebook_url(canonical_url):
                 p = parse_facebook_url(canonical_url)
@@ -312,6 +313,9 @@ def normalize_url(
     if hostname:
         hostname = decode_punycode_hostname(hostname).lower()
 
+        if lowercase:
+            hostname = to_lowercase(hostname)
+
     # Dropping :80 & :443 when they are the default port of the scheme
     # NOTE: a url without scheme was given the https scheme above ('//x' aside)
     if (port == 80 and scheme == "http") or (port == 443 and scheme in ("https", "")):
@@ -334,7 +338,7 @@ def normalize_url(
     path = safely_unquote_path(path)
 
     if lowercase:
-        path = upper_quoted(path.lower())
+        path = upper_quoted(to_lowercase(path))
 
     # Handling Google AMP suffixes
     if normalize_amp:
@@ -380,8 +384,8 @@ def normalize_url(
         if lowercase:
             qsl = [
                 (
-                    upper_quoted(key.lower()),
-                    upper_quoted(value.lower()) if value is not None else None,
+                    upper_quoted(to_lowercase(key)),
+                    upper_quoted(to_lowercase(value)) if value is not None else None,
                 )
                 for key, value in qsl
             ]
@@ -467,7 +471,7 @@ def normalize_url(
     query = safe_serialize_qsl(qsl)
 
     if lowercase:
-        fragment = upper_quoted(fragment.lower())
+        fragment = upper_quoted(to_lowercase(fragment))
 
     if quoted:
         fragment = safely_quote(fragment)
